@@ -186,7 +186,7 @@ class C01(e1.E1Check):
                                     var(rec(("x", opt(I)), ("y", var(I)))), var(opt(S)), F, B, var(B),
                                     union(I, var(I)), var(union(I, S))]
     bounds_quick = dict(N=2, M=2, K=5, enc_k=1, state_cap=18, parts=2)
-    bounds_thorough = dict(N=3, M=2, K=8, enc_k=2, state_cap=400, parts=8)
+    bounds_thorough = dict(N=3, M=2, K=8, enc_k=1, state_cap=150, parts=16)
     rule = ("states = arrays of the type menu x physical encodings (<= enc_k non-canonical nodes); transitions = getitem with "
             "every single item of the full item alphabet (all ints, all start/stop/step ranges, ellipsis, newaxis, all small "
             "integer arrays incl. out-of-range and repeated, 2-d and narrow dtypes, all boolean masks and wrong lengths, "
